@@ -125,8 +125,10 @@ def h_junit(sx):
                         names_hook = "HOOK-ERROR in" in text
                         bad_steps = [s.name for s in w.step_objs(e) if s.status.name in ("failed", "error", "hook_error", "undefined", "pending")]
                         if bad_steps and not (names_hook and st[e.eid] == "hook_error"):
-                            sx.check(names_step and any(n in text for n in bad_steps), "C16.problem-entry-names-the-step",
-                                     detail=lambda m, e=e, text=text: dict(det(m), sid=e.eid, text=text[:300]))
+                            # the responsible step is the FIRST one that went wrong (later ones are only skipped/undefined remainders)
+                            fl_ = [l for l in text.splitlines() if "Failing step:" in l]
+                            sx.check(names_step and bool(fl_) and bad_steps[0] in fl_[0], "C16.problem-entry-names-the-step",
+                                     detail=lambda m, e=e, text=text, bad_steps=bad_steps: dict(det(m), sid=e.eid, responsible=bad_steps[0], text=text[:300]))
                         elif st[e.eid] == "hook_error":
                             sx.check(names_hook, "C16.problem-entry-names-the-hook", detail=lambda m, e=e, text=text: dict(det(m), sid=e.eid, text=text[:300]))
             for attr, tag in (("failures", "failure"), ("errors", "error"), ("skipped", "skipped")):
@@ -260,6 +262,7 @@ def jobs(tier, seed):
     D = {"*": [0, 2]}
     shapes = {
         "2sc": ([F([S(1, rich=True), S(1)])], {"out_dom": {"*": [0, 1]}}, False),
+        "3steps": ([F([S(3)], bg=1)], {"out_dom": {"*": [0, 3]}}, False),
         "outline-rule": ([F([S(1), O(1, [(2, [])]), R([S(1)])]), F([S(1)])], {"out_dom": {"*": [0, 1]}, "stop": "sym"}, False),
         "hooks": ([F([S(1, tags=["t1"]), S(1)], tags=["t0"])], {"out_dom": {"*": [0, 1]}, "undef": False}, True),
         "cleanup": ([F([S(1), S(1)])], {"out_dom": {"*": [5, 6]}, "cleanups": True, "undef": False}, False),
@@ -269,7 +272,7 @@ def jobs(tier, seed):
         shapes.update({"2feat-select": ([F([S(1), S(1)]), F([S(2)])], {"out_dom": D, "select": True}, False),
                        "bg": ([F([S(2), R([S(1)], bg=1)], bg=1)], {"out_dom": {"*": [0, 5]}}, False)})
     for name, (sh, opts, hooks) in shapes.items():
-        sub = {} if name == "2sc" else {"hostile_idx": [0, 3, 9], "wheres": ["scenario-name", "message"] + (["hook-message"] if hooks else [])}
+        sub = {} if name == "2sc" else {"hostile_idx": [0], "wheres": ["message"]} if name == "3steps" else {"hostile_idx": [0, 3, 9], "wheres": ["scenario-name", "message"] + (["hook-message"] if hooks else [])}
         js.append(Job("junit.%s" % name, "props.c16:h_junit", dict({"shapes": sh, "opts": opts, "hooks": hooks}, **sub),
                       reach=REACH, min_paths=20, cost=100, validate=40, closure=False))
     return js
